@@ -983,6 +983,19 @@ impl<C: CellType> OptRebuild<'_, C> {
                 self.emit(var);
                 self.read(var);
             }
+            // A written variable that is constant is not clobbered below, because the
+            // block only ever stores the value the variable already has. That value
+            // includes our pending operations, so they have to be performed first.
+            let mut written_constant = sub_state
+                .written
+                .keys()
+                .copied()
+                .filter(|var| constant.contains(var))
+                .collect::<Vec<_>>();
+            written_constant.sort();
+            for var in written_constant {
+                self.emit(var);
+            }
             for (&var, _) in &sub_state.written {
                 if !constant.contains(&var) {
                     clobbered.insert(var);
